@@ -14,7 +14,7 @@ def handle (args : Toks) : String :=
   | none => "bad-op"
   | some (d, m, y, n) =>
     match run n ⟨d, m, y⟩ with
-    | none => "panic"
+    | none => "panic index-out-of-range"
     | some rows =>
       joinToks ("ok" :: toString n :: rows.flatMap fun r => [toString r.date, toString r.month, toString r.year, toString r.doy])
 
